@@ -11,7 +11,7 @@ the property is decided for the graph / feature / filter logic (partial for XML 
 
 `WF d` (GeffModel/TrackMateSpec.lean; executable check `wfB`, `wfB_sound`) = TrackMate's own invariants: every spot converts and has a unique ID,
 ROI on all spots or none, every track has a TRACK_ID, edges convert, join existing spots, are
-pairwise distinct, and a spot is touched by edges of one track id only. -/
+pairwise distinct, never join a spot to itself, and a spot is touched by edges of one track id only. -/
 namespace GeffProps.C16
 open Geff.TrackMate Geff.Graph
 
